@@ -64,3 +64,21 @@ package manager
 //@   assert [C14:single-active] forall j :: 0 <= j && j < len($revs) && $revs[j].GetName() != $p.GetCurrentRevision()
 //@        ==> $revs[j].GetDesiredState() != "Active"
 //@   assert [C14:numbered-last] forall j :: 0 <= j && j < len($revs) ==> as($o, v1.PackageRevision).GetRevision() >= $revs[j].GetRevision()
+
+// C14 (the revision is named after the digest of the package's current source): the revisioner
+// answers without asking the registry only when told never to pull, or - for IfNotPresent - when
+// the identifier recorded with the current revision is exactly the package's source; otherwise
+// the name is derived from the digest the registry reports for exactly that source (or is empty,
+// which the package reconciler treats as 'not unpacked yet', when the registry reported nothing).
+//@ func (*manager.PackageRevisioner).Revision
+//@ props C14
+//@ requires r != nil && p != nil && r.fetcher != nil
+//@ ghost headed bool = false
+//@ let $d = result (xpkg.Fetcher).Head
+//@ site (xpkg.Fetcher).Head(_, _, $ref, $ps...)
+//@   assert [C14:digest-asked-for-the-current-source] $ref == name.ParseReference(p.GetSource(), name.WithDefaultRegistry(r.registry))[0]
+//@   update headed = true
+//@ ensures [C14:recorded-revision-reused-only-for-the-identical-source] err == nil && !headed && !(p.GetPackagePullPolicy() != nil && *p.GetPackagePullPolicy() == "Never") ==>
+//@      p.GetPackagePullPolicy() != nil && *p.GetPackagePullPolicy() == "IfNotPresent" && p.GetCurrentIdentifier() == p.GetSource() && result == p.GetCurrentRevision()
+//@ ensures [C14:revision-named-after-the-reported-digest] err == nil && headed && result != "" ==> $d != nil && result == xpkg.FriendlyID(p.GetName(), $d.Digest.Hex)
+//@ ensures [C14:never-pull-names-the-revision-after-the-source] err == nil && p.GetPackagePullPolicy() != nil && *p.GetPackagePullPolicy() == "Never" ==> result == xpkg.FriendlyID(p.GetName(), p.GetSource())
